@@ -9,7 +9,7 @@ for d in $dirs; do
   d=${d%/}; name=$(basename $d); prop=${name%%-*}
   git -C /repo apply /verif/$d/patch.diff || { printf "%s\t%s\tPATCH-DOES-NOT-APPLY\t\n" $name $prop >> $out; continue; }
   res=$(VERIF_NO_EVIDENCE=1 ./check $prop --tier quick 2>&1 | grep "^VIOLATION" | head -1 | sed 's/replay=[^ ]* //' | cut -c1-230)
-  git -C /repo checkout -- .
+  git -C /repo checkout -- . ; git -C /repo clean -fdq x/
   if [ -n "$res" ]; then v=reported; case "$res" in *no-failing-input-found) v=reported-no-failing-input;; esac; else v=MISSED; fi
   printf "%s\t%s\t%s\t%s\n" $name $prop $v "$res" >> $out
   echo "$name $v"
